@@ -841,6 +841,14 @@ RULES = {
                 "for $d in & mut $v [ $$a .. $$e ] { $$body }",
                 "{ let mut i__ = $$a ; let e__ = $$e ; __slice_range_check ( i__ , e__ , $v . len ( ) ) ; while i__ < e__ { let $d = & mut $v . as_mut_slice ( ) [ i__ ] ; i__ += 1 ; $$body } }",
                 guard=lambda e: e["$$a"] and e["$$e"] and all(t not in (";", "{", "}") for t in e["$$a"] + e["$$e"])),
+    "R48": MultiRule("R48", "MODEL of &str as its UTF-8 byte slice, for the ASCII-only string operations of the parsers: `s: &str` -> `s: &[u8]`; str::strip_prefix(c) / starts_with(c) with an ASCII char c -> helpers testing the first byte (in UTF-8 an ASCII byte is always a whole character); `for b in s.bytes()` -> index loop over the bytes; len / is_empty are those of the byte slice", [
+        ("s : & str", "s : & [ u8 ]"),
+        ("$s . strip_prefix ( '+' )", "__strip_prefix_byte ( $s , b'+' )"),
+        ("$s . strip_prefix ( '-' )", "__strip_prefix_byte ( $s , b'-' )"),
+        ("$s . starts_with ( '+' )", "__starts_with_byte ( $s , b'+' )"),
+        ("$s . starts_with ( '_' )", "__starts_with_byte ( $s , b'_' )"),
+        ("for b in s . bytes ( ) { $$body }", "{ let mut i__ = 0 ; while i__ < s . len ( ) { let b = s [ i__ ] ; i__ += 1 ; $$body } }"),
+    ]),
     "R14n": Rule("R14n", "debug_assert_ne!(..); -> (dropped)", "debug_assert_ne ! ( $$c ) ;", ""),
     "R10n": Rule("R10n", "for _ in A..E { BODY } -> { let mut i__ = A; let e__ = E; while i__ < e__ { i__ += 1; BODY } }  (std: Range yields A, .., E-1; bounds evaluated once)",
                  "for _ in $$a .. $$e { $$body }", "{ let mut i__ = $$a ; let e__ = $$e ; while i__ < e__ { i__ += 1 ; $$body } }",
